@@ -174,11 +174,19 @@ open LbzVerif.Basic
 
 `decodeFile` and `inspect` are total by construction: they are ordinary Lean
 definitions accepted by the termination checker (structural recursion only;
-no `partial`, no well-founded recursion with `decreasing_by sorry`), so every
+nothing opaque to the kernel, no escape hatches), so every
 byte string gets exactly one verdict.  The lemmas below pin down the first
 steps of that verdict. -/
 
 theorem decodeFile_empty : decodeFile [] = .error .empty := rfl
+
+/-- `bz2.compress(b"hello", 9)` as written by libbz2 1.0.8. -/
+def helloBz2 : List UInt8 := [66, 90, 104, 57, 49, 65, 89, 38, 83, 89, 25, 49, 101, 61, 0, 0, 0, 129, 0, 2, 68, 160, 0, 33, 154, 104, 51, 77, 7, 51, 139, 185, 34, 156, 40, 72, 12, 152, 178, 158, 128]
+
+/-- The oracle evaluated by the kernel on a real file (non-vacuity witness for
+    statements of the form `decodeFile x = .ok y → …`; about ten seconds). -/
+theorem decodeFile_helloBz2 : decodeFile helloBz2 = .ok [104, 101, 108, 108, 111] := by
+  decide +kernel
 
 /-- `headerLevel` recognises exactly "BZh1"…"BZh9". -/
 theorem headerLevel_some_iff (w l : Nat) :
@@ -239,4 +247,372 @@ theorem readUnary_lt {nGroups k : Nat} {bits : Bits} {j : Nat} {rest : Bits}
   | case3 k bits hlt ih => exact ih hlt h
   | case4 k bits hnot => cases h
 
+/-! ### the fuel of the two outer loops is sufficient
+
+Every reader returns a suffix that is no longer than its input, and none of
+them produces the artificial reason `Reject.fuel`; a block consumes at least
+48 bits and a stream at least 80, so `bytes + 1` units of fuel can never run
+out: `walkFile_ne_fuel`, `decodeFile_ne_fuel`, `inspect_ne_fuel`. -/
+
+theorem readUnary_ok {g k : Nat} {bits : Bits} :
+    (∀ e, readUnary g k bits = .error e → e ≠ .fuel) ∧
+    (∀ j rest, readUnary g k bits = .ok (j, rest) → rest.length ≤ bits.length) := by
+  fun_induction readUnary g k bits with
+  | case1 => simp
+  | case2 k bits => simp
+  | case3 k bits h ih =>
+    exact ⟨ih.1, fun j rest hh => by have := ih.2 j rest hh; simp only [List.length_cons]; omega⟩
+  | case4 => simp
+
+theorem readSelectorMtf_ok {g n pos : Nat} {bits : Bits} {acc : Array Nat} :
+    (∀ e, readSelectorMtf g n pos bits acc = .error e → e ≠ .fuel) ∧
+    (∀ a p rest, readSelectorMtf g n pos bits acc = .ok (a, p, rest) → rest.length ≤ bits.length) := by
+  fun_induction readSelectorMtf g n pos bits acc with
+  | case1 => simp
+  | case2 n pos bits acc e h =>
+    have := (@readUnary_ok g 0 bits).1 e h
+    simp [this]
+  | case3 n pos bits acc j bits' h ih =>
+    have := (@readUnary_ok g 0 bits).2 _ _ h
+    exact ⟨ih.1, fun a p rest hh => by have := ih.2 a p rest hh; omega⟩
+
+theorem readLen_ok {cur pos : Nat} {bits : Bits} :
+    (∀ e, readLen cur pos bits = .error e → e ≠ .fuel) ∧
+    (∀ l p rest, readLen cur pos bits = .ok (l, p, rest) → rest.length ≤ bits.length) := by
+  refine ⟨?_, fun l p rest h => by have := (readLen_pos h).1; omega⟩
+  fun_induction readLen cur pos bits <;> simp_all
+
+theorem readLens_ok {n cur pos : Nat} {bits : Bits} {acc : Array Nat} :
+    (∀ e, readLens n cur pos bits acc = .error e → e ≠ .fuel) ∧
+    (∀ a p rest, readLens n cur pos bits acc = .ok (a, p, rest) → rest.length ≤ bits.length) := by
+  fun_induction readLens n cur pos bits acc with
+  | case1 => simp
+  | case2 n cur pos bits acc e h =>
+    have := (@readLen_ok cur pos bits).1 e h
+    simp [this]
+  | case3 n cur pos bits acc l p bits' h ih =>
+    have := (@readLen_ok cur pos bits).2 _ _ _ h
+    exact ⟨ih.1, fun a p rest hh => by have := ih.2 a p rest hh; omega⟩
+
+theorem readTable_ok {a pos : Nat} {bits : Bits} :
+    (∀ e, readTable a pos bits = .error e → e ≠ .fuel) ∧
+    (∀ t p rest, readTable a pos bits = .ok (t, p, rest) → rest.length ≤ bits.length) := by
+  unfold readTable
+  split
+  · simp
+  · rename_i start bits' h
+    have hl := takeNat_length h
+    split
+    · split
+      · rename_i e he
+        have := (@readLens_ok a start (pos+5) bits' _).1 e he
+        simp [this]
+      · rename_i lens p r he
+        have := (@readLens_ok a start (pos+5) bits' _).2 _ _ _ he
+        simp only [Except.ok.injEq, Prod.mk.injEq, reduceCtorEq, false_implies, implies_true, true_and]
+        intro t p' rest ⟨_, _, h3⟩
+        subst h3; omega
+    · simp
+
+theorem readTables_ok {a n pos : Nat} {bits : Bits} {acc : Array (List Nat)} :
+    (∀ e, readTables a n pos bits acc = .error e → e ≠ .fuel) ∧
+    (∀ t p rest, readTables a n pos bits acc = .ok (t, p, rest) → rest.length ≤ bits.length) := by
+  fun_induction readTables a n pos bits acc with
+  | case1 => simp
+  | case2 n pos bits acc e h =>
+    have := (@readTable_ok a pos bits).1 e h
+    simp [this]
+  | case3 n pos bits acc t p bits' h ih =>
+    have := (@readTable_ok a pos bits).2 _ _ _ h
+    exact ⟨ih.1, fun a p rest hh => by have := ih.2 a p rest hh; omega⟩
+
+theorem readBitmapRows_len {big : Nat} {rows : List Nat} {pos : Nat} {bits : Bits}
+    {u : List UInt8} {p : Nat} {rest : Bits}
+    (h : readBitmapRows big rows pos bits = some (u, p, rest)) : rest.length ≤ bits.length := by
+  fun_induction readBitmapRows big rows pos bits generalizing u p rest with
+  | case1 => simp at h; obtain ⟨_, _, h3⟩ := h; subst h3; exact Nat.le_refl _
+  | case2 i rows pos bits hb hn => simp at h
+  | case3 i rows pos bits hb small bits' ht hn => simp at h
+  | case4 i rows pos bits hb small bits' ht u' p' r' hr ih =>
+    simp only [Option.some.injEq, Prod.mk.injEq] at h
+    have := ih hr
+    have := takeNat_length ht
+    obtain ⟨_, _, h3⟩ := h
+    subst h3; omega
+  | case5 i rows pos bits hb ih => exact ih h
+
+theorem decodeRank_ok {counts : List Nat} {code first index pos : Nat} {bits : Bits} :
+    (∀ e, decodeRank counts code first index pos bits = .error e → e ≠ .fuel) ∧
+    (∀ r p rest, decodeRank counts code first index pos bits = .ok (r, p, rest) →
+      rest.length ≤ bits.length) := by
+  fun_induction decodeRank counts code first index pos bits with
+  | case1 => simp
+  | case2 => simp
+  | case3 c counts code first index pos b bits code' h => simp
+  | case4 c counts code first index pos b bits code' h ih =>
+    exact ⟨ih.1, fun r p rest hh => by have := ih.2 r p rest hh; simp only [List.length_cons]; omega⟩
+
+theorem decodeSym_ok {c : Code} {pos : Nat} {bits : Bits} :
+    (∀ e, decodeSym c pos bits = .error e → e ≠ .fuel) ∧
+    (∀ s p rest, decodeSym c pos bits = .ok (s, p, rest) → rest.length ≤ bits.length) := by
+  unfold decodeSym
+  split
+  · rename_i e he
+    have := (@decodeRank_ok c.counts 0 0 0 pos bits).1 e he
+    simp [this]
+  · rename_i r p rest he
+    have := (@decodeRank_ok c.counts 0 0 0 pos bits).2 _ _ _ he
+    split
+    · simp
+    · simp only [Except.ok.injEq, Prod.mk.injEq, reduceCtorEq, false_implies, implies_true, true_and]
+      intro s p' rest' ⟨_, _, h3⟩
+      subst h3; omega
+
+theorem decodeGroup_ok {c : Code} {eob k pos : Nat} {bits : Bits} {acc : Array Nat} :
+    (∀ e, decodeGroup c eob k pos bits acc = .error e → e ≠ .fuel) ∧
+    (∀ d p rest a, decodeGroup c eob k pos bits acc = .ok (d, p, rest, a) →
+      rest.length ≤ bits.length) := by
+  fun_induction decodeGroup c eob k pos bits acc with
+  | case1 => simp
+  | case2 k pos bits acc e h =>
+    have := (@decodeSym_ok c pos bits).1 e h
+    simp [this]
+  | case3 k pos bits acc s p bits' h heq =>
+    have := (@decodeSym_ok c pos bits).2 _ _ _ h
+    simp only [Except.ok.injEq, Prod.mk.injEq, reduceCtorEq, false_implies, implies_true, true_and]
+    intro d p' rest a ⟨_, _, h3, _⟩
+    subst h3; omega
+  | case4 k pos bits acc s p bits' h hne ih =>
+    have := (@decodeSym_ok c pos bits).2 _ _ _ h
+    exact ⟨ih.1, fun d p rest a hh => by have := ih.2 d p rest a hh; omega⟩
+
+theorem decodeGroups_ok {codes : Array Code} {eob : Nat} {sels : List Nat} {nUsed pos : Nat}
+    {bits : Bits} {acc : Array Nat} :
+    (∀ e, decodeGroups codes eob sels nUsed pos bits acc = .error e → e ≠ .fuel) ∧
+    (∀ n p rest a, decodeGroups codes eob sels nUsed pos bits acc = .ok (n, p, rest, a) →
+      rest.length ≤ bits.length) := by
+  fun_induction decodeGroups codes eob sels nUsed pos bits acc with
+  | case1 => simp
+  | case2 => simp
+  | case3 => simp
+  | case4 s sels nUsed pos bits acc c hc hcomp e h =>
+    have := (@decodeGroup_ok c eob groupSize pos bits acc).1 e h
+    simp [this]
+  | case5 s sels nUsed pos bits acc c hc hcomp p bits' acc' h =>
+    have := (@decodeGroup_ok c eob groupSize pos bits acc).2 _ _ _ _ h
+    simp only [Except.ok.injEq, Prod.mk.injEq, reduceCtorEq, false_implies, implies_true, true_and]
+    intro n p' rest a ⟨_, _, h3, _⟩
+    subst h3; omega
+  | case6 s sels nUsed pos bits acc c hc hcomp p bits' acc' h ih =>
+    have := (@decodeGroup_ok c eob groupSize pos bits acc).2 _ _ _ _ h
+    exact ⟨ih.1, fun n p rest a hh => by have := ih.2 n p rest a hh; omega⟩
+
+theorem parseBlock_ok {level start : Nat} {bits : Bits} :
+    (∀ e, parseBlock level start bits = .error e → e ≠ .fuel) ∧
+    (∀ b rest, parseBlock level start bits = .ok (b, rest) → rest.length ≤ bits.length) := by
+  unfold parseBlock
+  split
+  · simp
+  rename_i crc bits1 h1
+  have l1 := takeNat_length h1
+  split
+  · simp
+  rename_i rnd bits2 h2
+  have l2 := takeNat_length h2
+  split
+  · simp
+  rename_i op bits3 h3
+  have l3 := takeNat_length h3
+  split
+  · simp
+  rename_i big bits4 h4
+  have l4 := takeNat_length h4
+  split
+  · simp
+  rename_i used pos5 bits5 h5
+  have l5 := readBitmapRows_len h5
+  split
+  · simp
+  split
+  · simp
+  rename_i ng bits6 h6
+  have l6 := takeNat_length h6
+  split
+  · simp
+  split
+  · simp
+  rename_i ns bits7 h7
+  have l7 := takeNat_length h7
+  split
+  · simp
+  split
+  · rename_i e he
+    have := (@readSelectorMtf_ok ng ns (pos5 + 18) bits7 _).1 e he
+    simp [this]
+  rename_i selMtf pos8 bits8 h8
+  have l8 := (@readSelectorMtf_ok ng ns (pos5 + 18) bits7 _).2 _ _ _ h8
+  split
+  · simp
+  rename_i selectors h9
+  dsimp only
+  split
+  · rename_i e he
+    have := (@readTables_ok _ ng pos8 bits8 _).1 e he
+    simp [this]
+  rename_i tables pos10 bits10 h10
+  have l10 := (@readTables_ok _ ng pos8 bits8 _).2 _ _ _ h10
+  split
+  · rename_i e he
+    have := (@decodeGroups_ok _ _ _ 0 pos10 bits10 _).1 e he
+    simp [this]
+  rename_i nUsed pos11 bits11 syms h11
+  have l11 := (@decodeGroups_ok _ _ _ 0 pos10 bits10 _).2 _ _ _ _ h11
+  simp only [Except.ok.injEq, Prod.mk.injEq, reduceCtorEq, false_implies, implies_true, true_and]
+  intro b rest ⟨_, hr⟩
+  subst hr; omega
+
+theorem unMtfRle2Go_ne_fuel {cap : Nat} {syms : List Nat} {mtf : List UInt8} {run weight : Nat}
+    {out : Array UInt8} : unMtfRle2Go cap syms mtf run weight out ≠ .error .fuel := by
+  fun_induction unMtfRle2Go cap syms mtf run weight out <;> simp_all
+
+theorem unRle1Go_ne_fuel {bs : List UInt8} {last : UInt8} {cnt : Nat} {acc : Array UInt8} :
+    unRle1Go bs last cnt acc ≠ .error .fuel := by
+  fun_induction unRle1Go bs last cnt acc <;> simp_all
+
+theorem decodeBlock_ne_fuel {b : Block} : decodeBlock b ≠ .error .fuel := by
+  unfold decodeBlock unMtfRle2 unRle1
+  split
+  · rename_i e he
+    intro h
+    simp only [Except.error.injEq] at h
+    subst h
+    exact unMtfRle2Go_ne_fuel he
+  · split
+    · simp
+    · split
+      · simp
+      · split
+        · rename_i e he
+          intro h
+          simp only [Except.error.injEq] at h
+          subst h
+          exact unRle1Go_ne_fuel he
+        · split <;> simp
+
+theorem strictBlockCheck_ne_fuel {b : Block} : strictBlockCheck b ≠ .error .fuel := by
+  unfold strictBlockCheck
+  split
+  · simp
+  · split
+    · simp
+    · split <;> simp
+
+/-- The block loop never runs out of fuel when it has one unit per 48 bits, and
+    it never hands back more bits than it was given. -/
+theorem decodeBlocks_ok {strict : Bool} {level fuel pos : Nat} {bits : Bits} {cc : UInt32}
+    {out : Array UInt8} {reps : Array BlockReport} (hf : bits.length < 48 * fuel) :
+    decodeBlocks strict level fuel pos bits cc out reps ≠ .error .fuel ∧
+    (∀ p rest s o r, decodeBlocks strict level fuel pos bits cc out reps = .ok (p, rest, s, o, r) →
+      rest.length + 80 ≤ bits.length) := by
+  fun_induction decodeBlocks strict level fuel pos bits cc out reps with
+  | case1 => omega
+  | case2 => simp
+  | case3 =>
+    rename_i e he _
+    have := (parseBlock_ok).1 e he
+    simp [this]
+  | case4 =>
+    rename_i e he _
+    refine ⟨?_, by simp⟩
+    intro h
+    simp only [Except.error.injEq] at h
+    subst h
+    cases strict
+    · simp at he
+    · exact strictBlockCheck_ne_fuel he
+  | case5 =>
+    rename_i e he _
+    refine ⟨?_, by simp⟩
+    intro h
+    simp only [Except.error.injEq] at h
+    subst h
+    exact decodeBlock_ne_fuel he
+  | case6 =>
+    rename_i hb _ _ _ _ h1 ih
+    have l1 := takeNat_length h1
+    have l2 := (parseBlock_ok).2 _ _ hb
+    have := ih (by omega)
+    exact ⟨this.1, fun p rest s o r hh => by have := this.2 p rest s o r hh; omega⟩
+  | case7 => simp
+  | case8 =>
+    rename_i h1 _ h2
+    have l1 := takeNat_length h1
+    have l2 := takeNat_length h2
+    simp only [ne_eq, reduceCtorEq, not_false_eq_true, Except.ok.injEq, Prod.mk.injEq, true_and]
+    intro p rest s o r ⟨_, hr, _⟩
+    subst hr; omega
+  | case9 => simp
+  | case10 => simp
+
+/-- The stream loop never runs out of fuel either. -/
+theorem decodeStreams_ne_fuel {strict : Bool} {fuel innerFuel level start : Nat} {bits : Bits}
+    {acc : Acc} (hf : bits.length < 80 * fuel) (hi : bits.length < 48 * innerFuel) :
+    decodeStreams strict fuel innerFuel level start bits acc ≠ .error .fuel := by
+  fun_induction decodeStreams strict fuel innerFuel level start bits acc with
+  | case1 => omega
+  | case2 =>
+    rename_i e he
+    intro h
+    simp only [Except.error.injEq] at h
+    subst h
+    exact (decodeBlocks_ok hi).1 he
+  | case3 => simp
+  | case4 => simp
+  | case5 => simp
+  | case6 => simp
+  | case7 =>
+    rename_i bits0 _ _ _ hb pad bits1 _ _ _ w rest ht _ _ ih
+    have l1 := (decodeBlocks_ok hi).2 _ _ _ _ _ hb
+    have l2 := takeNat_length ht
+    have l3 : bits1.length ≤ bits0.length := by simp only [bits1, List.length_drop]; exact Nat.sub_le _ _
+    exact ih (by omega) (by omega)
+
+/-- **Fuel is sufficient**: the reference decoder / inspector never answers with
+    the artificial reason `fuel`; every rejection is a genuine format reason. -/
+theorem walkFile_ne_fuel (strict : Bool) (data : List UInt8) :
+    walkFile strict data ≠ .error .fuel := by
+  unfold walkFile
+  split
+  · simp
+  · dsimp only
+    split
+    · simp
+    · rename_i w bits ht
+      have l := takeNat_length ht
+      rw [bytesToBits_length] at l
+      split
+      · simp
+      · exact decodeStreams_ne_fuel (by omega) (by omega)
+
+theorem decodeFile_ne_fuel (data : List UInt8) : decodeFile data ≠ .error .fuel := by
+  unfold decodeFile
+  have := walkFile_ne_fuel false data
+  split
+  · rename_i e he
+    intro h
+    simp only [Except.error.injEq] at h
+    subst h
+    exact this he
+  · simp
+
+theorem inspect_ne_fuel (data : List UInt8) : inspect data ≠ .error .fuel := by
+  unfold inspect
+  have := walkFile_ne_fuel true data
+  split
+  · rename_i e he
+    intro h
+    simp only [Except.error.injEq] at h
+    subst h
+    exact this he
+  · simp
 end LbzVerif.Spec.Bzip2
